@@ -23,6 +23,8 @@ def akai_subject(variant):
     if variant >= 2:
         files.append({"name": "SNARE", "n": 4026, "chain": [10], "seq": 5})
         files.append({"name": "TAIL", "n": 6000, "chain": [12, 11], "seq": 6})      # a multi-sector file late in the table
+        # one name byte away from KICK, with four entries between the two (a damaged name can equal a sibling that is not its neighbour)
+        files.append({"name": "KICL", "n": 500, "chain": [13], "seq": 7})
     spec = {"parts": [{"vols": [{"name": "VOL", "dir": [3], "files": files}]}]}
     model = A.model_from_spec(spec)
     img, layout = A.build_akai(model)
@@ -221,7 +223,7 @@ class Check(CheckBase):
     id = "C14"
     level = "fault_enumeration"
     title = "A damaged directory entry affects only that entry"
-    rule = ("AKAI volumes with 3, 4 and 5 files (fragmented sample, L/R pair, program, a file filling its last sector): every "
+    rule = ("AKAI volumes with 3, 4 and 7 files (two names one byte apart at the ends of the directory) (fragmented sample, L/R pair, program, a file filling its last sector): every "
             "entry x each of its 24 bytes x value menu (15 values quick / all 256 thorough); Roland performance with 3 samples "
             "(permuted chain, reverse mode behind a leading-cluster offset, release-end mode): every byte of each sample's 32-byte directory record and 48-byte "
             "parameter record x the same menus (thorough: all 256 for sample 1, menu for the others); thorough also all byte "
@@ -238,7 +240,7 @@ class Check(CheckBase):
         cases = []
         menu = MENU if self.quick else list(range(256))
         for key in ("akai0", "akai1", "akai2"):
-            n = {"akai0": 3, "akai1": 4, "akai2": 6}[key]
+            n = {"akai0": 3, "akai1": 4, "akai2": 7}[key]
             for e in range(n):
                 for pos in range(24):
                     for v in menu:
